@@ -45,7 +45,7 @@ def generate(prop, spec, repo, C, defs, classes, LEMMAS, mode_filter=None):
     vcs = []; infos = []; und = []
     for item in spec['functions']:
         key, opts = (item, {}) if isinstance(item, str) else item
-        ex = engine.Exec(repo, C, classes, defs, model_modules())
+        ex = engine.Exec(repo, C, classes, defs, model_modules()); ex.all_lemmas = LEMMAS
         for k, v in opts.items(): setattr(ex, k, v)
         t0 = time.time()
         try:
@@ -60,7 +60,7 @@ def generate(prop, spec, repo, C, defs, classes, LEMMAS, mode_filter=None):
         for x in v: x.name = '%s/%s%s/%s' % (prop, key.split(':')[1], tag, x.name)
         vcs += v; infos.append(info)
     for name in spec.get('lemmas', []):
-        ex = engine.Exec(repo, C, classes, defs, model_modules())
+        ex = engine.Exec(repo, C, classes, defs, model_modules()); ex.all_lemmas = LEMMAS
         try:
             v, info = ex.verify_lemma(name, LEMMAS[name])
         except (Undecided, StaleContract) as e:
